@@ -53,7 +53,7 @@ class ProgGen:
         v = ["var", self.d(st.sampled_from(["A", "B", "C"]))]
         k = ["num", str(self.d(st.integers(0, 3))), 0]
         k[2] = int(k[1])
-        c = ["cmp", self.d(st.sampled_from(["=", "<>", "<", ">", "<=", ">="])), v, k]
+        c = ["cmp", self.d(st.sampled_from(cbgen.REL_OPS)), v, k]
         r = self.d(st.integers(0, 9))
         if r == 0:
             c2 = ["cmp", "=", ["var", self.d(st.sampled_from(["A", "B", "C"]))], ["num", "1", 1]]
